@@ -213,7 +213,12 @@ func (mt *MarkdownTable) emitRow(
 			return err
 		}
 	}
-	if _, err := fmt.Fprint(w, mt.mdPaddedCellEscape(cells, widths, alignments, i), barRight); err != nil {
+	if max > 0 {
+		if _, err := fmt.Fprint(w, mt.mdPaddedCellEscape(cells, widths, alignments, i), barRight); err != nil {
+			return err
+		}
+	} else if _, err := io.WriteString(w, "|"); err != nil {
+		// a row with no cells at all: the first column is padding too
 		return err
 	}
 	i++
